@@ -30,6 +30,49 @@ def _cell(w, env, ref):
     return {"l": ref[1], "p": [CW._thaw(x) for x in ref[2]]}
 
 
+def call_closure(w, clo, args, extra_hooks=None):
+    """Value returned by a closure (or fn item) of the crate on abstract arguments: its body is walked with
+    the same hooks; the result is used only if every returning path yields the same known value.
+    Captured variables are unknown (TOP) - good enough for the predicates of filter / map steps."""
+    if clo[0] == "closure":
+        body = w.ctx.facts.body(clo[1])
+        first = 2
+    elif clo[0] == "fn":
+        body = w.ctx.facts.body(clo[1])
+        first = 1
+    else:
+        return None
+    if body is None or body.coroutine:
+        return None
+    depth = getattr(w, "_cc_depth", 0)
+    if depth > 3:
+        return None
+    # block numbers mean something to the caller's hooks only in the caller's body: hide them
+    sub = CW.Walk(w.ctx, body, [(lambda w2, bb, t2, argv2, env2, h0=h0: h0(w2, -1000 - bb, t2, argv2, env2)) for h0 in w.hooks], max_states=4000)
+    sub._cc_depth = depth + 1
+    rets = set()
+
+    def on_visit(bb, env):
+        tm = body.blocks[bb]["term"]
+        if tm and tm["k"] == "return":
+            rets.add(env.get(0, CW.TOP))
+    sub.on_visit = on_visit
+    env = {}
+    if clo[0] == "closure" and len(clo) > 2:
+        # the closure's environment: what it captured, as far as known
+        env[1] = ("adt", "closure", "closure", None, tuple(clo[2]))
+    for i, a in enumerate(args):
+        env[first + i] = a
+    try:
+        sub.explore(0, env)
+    except CW.Limit:
+        return None
+    if len(rets) == 1:
+        r = next(iter(rets))
+        return r if r != CW.TOP else None
+    return None
+
+
 def hooks():
     def h(w, bb, t, argv, env):
         nm = callee_name(t)
@@ -167,16 +210,65 @@ def hooks():
             return None
         if re.search(r"slice::<impl \[T\]>::(iter|iter_mut)$|vec::Vec::<T, A>::(iter|iter_mut)$", nm) and v0[0] == "list":
             return itr(v0[1])
-        if re.search(r"iter::Iterator::rev$", nm) and v0[0] == "iter":
+        if re.search(r"Iterator>?::(filter|map|filter_map|take_while|skip_while|inspect)$", nm) and v0[0] == "iter" and len(argv) > 1:
+            clo = w.deref_val(env, argv[1])
+            kind = nm.split("::")[-1]
+            outl = []
+            stopped = False
+            for x in v0[1]:
+                if stopped:
+                    break
+                # predicates take the item by reference: a value stands for its own reference here
+                r = call_closure(w, clo, [x])
+                if r is None:
+                    return None
+                if kind == "map":
+                    outl.append(r)
+                elif kind == "inspect":
+                    outl.append(x)
+                elif kind == "filter_map":
+                    if r[0] == "adt" and r[2] == "Some":
+                        outl.append(w.field(r, "0"))
+                    elif not (r[0] == "adt" and r[2] == "None"):
+                        return None
+                else:
+                    if not (CW.is_const(r) and r[1] in (0, 1, True, False)):
+                        return None
+                    truth = bool(r[1])
+                    if kind == "filter" and truth:
+                        outl.append(x)
+                    elif kind == "take_while":
+                        if truth:
+                            outl.append(x)
+                        else:
+                            stopped = True
+                    elif kind == "skip_while":
+                        if not truth or (outl and True):
+                            outl.append(x)
+            if kind == "skip_while":
+                # items after the first rejected one are all kept
+                outl = []
+                dropping = True
+                for x in v0[1]:
+                    if dropping:
+                        r = call_closure(w, clo, [x])
+                        if r is None or not CW.is_const(r):
+                            return None
+                        if bool(r[1]):
+                            continue
+                        dropping = False
+                    outl.append(x)
+            return itr(outl)
+        if re.search(r"Iterator>?::rev$", nm) and v0[0] == "iter":
             return itr(v0[1][::-1])
-        if re.search(r"iter::Iterator::enumerate$", nm) and v0[0] == "iter":
+        if re.search(r"Iterator>?::enumerate$", nm) and v0[0] == "iter":
             return itr(tuple(("tuple", (CW.const(i), x)) for i, x in enumerate(v0[1])))
-        if re.search(r"iter::Iterator::(skip|take)$", nm) and v0[0] == "iter" and len(argv) > 1 and CW.is_const(argv[1]):
+        if re.search(r"Iterator>?::(skip|take)$", nm) and v0[0] == "iter" and len(argv) > 1 and CW.is_const(argv[1]):
             k = argv[1][1]
             return itr(v0[1][k:] if nm.endswith("skip") else v0[1][:k])
-        if re.search(r"iter::Iterator::count$", nm) and v0[0] == "iter":
+        if re.search(r"Iterator>?::count$", nm) and v0[0] == "iter":
             return CW.const(len(v0[1]))
-        if re.search(r"iter::Iterator::zip$", nm) and v0[0] == "iter" and len(argv) > 1:
+        if re.search(r"Iterator>?::zip$", nm) and v0[0] == "iter" and len(argv) > 1:
             o = w.deref_val(env, argv[1])
             if o[0] == "adt" and str(o[2]).startswith("RangeFrom"):
                 s0 = w.field(o, "start")
@@ -185,7 +277,7 @@ def hooks():
             if o[0] in ("iter", "list"):
                 return itr(tuple(("tuple", (x, y)) for x, y in zip(v0[1], o[1])))
             return None
-        if re.search(r"iter::Iterator::(by_ref|fuse|peekable)$", nm) and v0[0] == "iter":
+        if re.search(r"Iterator>?::(by_ref|fuse|peekable)$", nm) and v0[0] == "iter":
             return a0 if a0[0] == "ref" else v0
         if (re.search(r"Iterator>?::next$", nm) or re.search(r"Iterator::next$", d)) and v0[0] == "iter":
             cell = _cell(w, env, a0)
